@@ -902,13 +902,53 @@ pub fn eval_conv_group(c: &GroupCase) -> Outcome {
     if g.doodad_refs.clone().unwrap_or_default() != c.doodad_refs.clone().unwrap_or_default() {
         push(f, "conv-group-doodad-refs-differ", String::new());
     }
-    match (write_group_bytes(&g, target), write_group_bytes(&c2.build(), target)) {
+    let converted_bytes = write_group_bytes(&g, target);
+    match (&converted_bytes, write_group_bytes(&c2.build(), target)) {
         (Ok(a), Ok(b)) => {
-            if a != b {
+            if *a != b {
                 push(f, "conv-group-bytes-differ-from-native-group", format!("{} -> {}: {} vs {} bytes", VNAMES[c.version as usize], VNAMES[to as usize], a.len(), b.len()));
             }
         }
-        (Err(e), _) | (_, Err(e)) => f.push(e),
+        (Err(e), _) => f.push(e.clone()),
+        (_, Err(e)) => f.push(e),
+    }
+    // the editor's way: a root of the source version with this group loaded, converted as a whole — the loaded
+    // group must come out as WmoConverter::convert_group leaves it
+    if to != c.version {
+        let rc = crate::model::grid_root(c.version, 2);
+        let mut root = rc.build(&rc.derive());
+        root.version = VERSIONS[c.version as usize];
+        if !root.groups.is_empty() {
+            let mut g0 = c.build();
+            g0.header.group_index = 0;
+            let mut want = c.build();
+            want.header.group_index = 0;
+            let want = match WmoConverter::new().convert_group(&mut want, target, VERSIONS[c.version as usize]) {
+                Ok(()) => write_group_bytes(&want, target).ok(),
+                Err(_) => None,
+            };
+            let mut ed = wow_wmo::WmoEditor::new(root);
+            let r = guard("WmoEditor::add_group+convert_to_version", || -> Result<Option<Vec<u8>>, wow_wmo::WmoError> {
+                ed.add_group(g0)?;
+                if ed.convert_to_version(target).is_err() {
+                    return Ok(None);
+                }
+                let mut cur = Cursor::new(Vec::new());
+                ed.save_group(&mut cur, 0)?;
+                Ok(Some(cur.into_inner()))
+            });
+            match (r, want) {
+                (Err(fl), _) => f.push(fl),
+                (Ok(Ok(Some(got))), Some(want)) => {
+                    o.notes.push("group_converted_through_editor");
+                    if got != want {
+                        let pos = got.iter().zip(&want).position(|(a, b)| a != b).unwrap_or(got.len().min(want.len()));
+                        push(f, "editor-converted-group-differs-from-convert-group", format!("{} -> {}: save_group after WmoEditor::convert_to_version writes {} bytes, convert_group + write_group {} bytes, first difference at byte {pos}", VNAMES[c.version as usize], VNAMES[to as usize], got.len(), want.len()));
+                    }
+                }
+                _ => o.notes.push("group_editor_conversion_not_judged"),
+            }
+        }
     }
     o
 }
